@@ -15,12 +15,27 @@ class Gen:
         apis, _ = C11.load_legacy(ctx)
         self.api = {a['fmt']: a for a in apis}
         self.dist = {}
+        self.last = {}          # (buffer, field enumerator) -> last value written in the current history
 
     def count(self, k):
         self.dist[k] = self.dist.get(k, 0) + 1
 
-    def value(self, w):
-        return self.value0(w) & ((1 << 64) - 1)
+    def value(self, w, key=None):
+        """a value for a field of width w; with some probability one that is RELATED to what the field currently holds
+        (same value, its low or high half, one bit away, same low 32 bits): the inputs on which shortcuts such as
+        'skip the write when nothing changes' or truncated comparisons go wrong"""
+        r = self.rng
+        old = self.last.get(key)
+        if old is not None and r.randint(0, 3) == 0:
+            c = r.randint(0, 6)
+            v = [old, old & 0xffffffff, old >> 32, old ^ (1 << r.randint(0, max(w - 1, 0))), (old & 0xffffffff) | (r.bits(32) << 32),
+                 old & 0xffff, (old + (1 << 32)) & ((1 << 64) - 1)][c]
+            self.count('value:related-to-current')
+        else:
+            v = self.value0(w) & ((1 << 64) - 1)
+        if key is not None:
+            self.last[key] = v & ((1 << w) - 1) if w < 64 else v
+        return v
 
     def value0(self, w):
         r = self.rng
@@ -54,6 +69,7 @@ class Gen:
             return ('g:%s:%d:%x' % (f.get_field, k, bad), [], 'get-bad')
         if c < 5 and f.init:
             self.count('init:current')
+            self.last = {kk: vv for kk, vv in self.last.items() if kk[0] != k}
             return ('i:%s:%d' % (f.init, k), ['i:%s:%d' % (f.name, k)], 'init')
         if c < 9 and a and a['init']:
             self.count('init:legacy')
@@ -66,17 +82,17 @@ class Gen:
             if r.randint(0, 2):
                 self.count('set:legacy')
                 vw = 32 if a['set'] == 'avtp_pdu_set' else 64
-                v = self.value(fld['width']) & ((1 << vw) - 1)
+                v = self.value(fld['width'], (k, fld['name'])) & ((1 << vw) - 1)
                 return ('l:%s:%d:%x:%x:x' % (a['set'], k, idx, v), ['s:%s:%s:%d:%x' % (f.name, fld['name'], k, v)], 'lset')
             self.count('get:legacy')
             return ('l:%s:%d:%x:0:%x' % (a['get'], k, idx, r.bits(16)), ['g:%s:%s:%d' % (f.name, fld['name'], k)], 'lget')
         if c < 45 and fld['setter']:
             self.count('set:dedicated')
-            v = self.value(fld['width'])
+            v = self.value(fld['width'], (k, fld['name']))
             return ('s:%s:%d:%x' % (fld['setter'], k, v), ['s:%s:%s:%d:%x' % (f.name, fld['name'], k, v)], 'set')
         if c < 70 and idx is not None:
             self.count('set:by-id')
-            v = self.value(fld['width'])
+            v = self.value(fld['width'], (k, fld['name']))
             return ('s:%s:%d:%x:%x' % (f.set_field, k, idx, v), ['s:%s:%s:%d:%x' % (f.name, fld['name'], k, v)], 'set')
         if c < 85 and fld['getter']:
             self.count('get:dedicated')
@@ -89,6 +105,7 @@ class Gen:
 
     def history(self, nops, malformed):
         r = self.rng
+        self.last = {}
         nb = r.choice([1, 1, 2, 3])
         legacy = [f for f in self.fmts if f.name in self.api]
         fs = [r.choice(legacy) if r.randint(0, 3) == 0 else r.choice(self.fmts) for _ in range(nb)]
